@@ -35,7 +35,10 @@ pub struct Sc {
 pub struct C06;
 
 const BASES: [&str; 6] = ["foo", "bar", "foo-bar", "fo", "baz", "f"];
-const VERSIONS: [&str; 100] = [
+const VERSIONS: [&str; 112] = [
+    // a component saturated to i64::MAX meeting a negative modifier or a small number at the same position
+    "1.99999999999999999999", "1.alpha", "1.beta1", "1.rc", "1.pre2", "1.5", "1.9223372036854775807", "1.0", "1alpha", "199999999999999999999",
+    "1.-", "1.99999999999999999999nb1",
     // modifiers in every spelling the rule knows ('pre' = 'rc', case-insensitive), letters against numbers
     "1.0pre1", "1.0pre", "1.0pre2", "1.0PRE1", "1.0RC1", "1.0Rc2", "1.0ALPHA", "1.0Alpha1", "1.0BETA", "1.0Beta2", "1.0PL1", "1.0Pl",
     "1.0rc2", "1.0beta1", "1.0alpha2", "1.0pl2", "2.0pre1", "2.0rc1", "2.0alpha1", "2.0a", "2.0B", "2.0b", "1.0z", "1.0Z",
@@ -274,7 +277,7 @@ fn merge_step(
     what: &str,
     deferred: &mut Option<Violation>,
 ) -> Result<Option<String>, Violation> {
-    let r = pat.best_match(a, b);
+    let r = metered!(ctx, a.len() + b.len() + 64, pat.best_match(a, b));
     let ma = pat.matches(a);
     let mb = pat.matches(b);
     match r {
@@ -627,6 +630,9 @@ impl Property for C06 {
         }
     }
 
+    fn work_factor(&self) -> Option<u64> {
+        Some(256)
+    }
     fn rule(&self) -> String {
         "Each run draws a pattern (dewey one/two-bound, glob, alternate, plain), a multiset of 2..9 candidate names \
          around it (matching and non-matching bases, versions that tie after zero padding, nb revisions, modifiers, \
